@@ -209,12 +209,133 @@ pub fn rand_free_operand(r: &mut Rng) -> Option<Operand> {
     operand_from_text(&alts.join("||"))
 }
 
+/// Probes at and next to the bounds of the given sets. Sets with very many bounds (long
+/// alternative lists) contribute an evenly spaced subsample of their bound versions plus the
+/// first and last few, so the probe count stays bounded whatever the operand size.
 pub fn probes_for(bs: &[&Bs]) -> Vec<MV> {
+    const CAP: usize = 40;
     let mut basis = vec![];
     for b in bs {
-        basis.extend(b.versions());
+        let vs = b.versions();
+        if vs.len() <= CAP + 16 {
+            basis.extend(vs);
+        } else {
+            for i in 0..CAP {
+                basis.push(vs[i * vs.len() / CAP].clone());
+            }
+            basis.extend(vs[..8].iter().cloned());
+            basis.extend(vs[vs.len() - 8..].iter().cloned());
+        }
     }
     probe_set(&basis)
+}
+
+/// Run `f` on a thread with a small (256 KiB) stack: code whose stack depth does not grow with
+/// the size of its operands needs a few KiB; recursion that follows the number of alternatives
+/// or identifiers overflows, which aborts the shard and is attributed by the orchestrator.
+pub fn on_small_stack<T: Send>(f: impl FnOnce() -> T + Send) -> Option<T> {
+    std::thread::scope(|s| std::thread::Builder::new().stack_size(256 * 1024).spawn_scoped(s, f).ok()?.join().ok())
+}
+
+/// Operand with a long list of alternatives (17..300, occasionally 3000 or 20000): pins, windows, a wide
+/// alternative followed by pins inside it, table intervals (heavy overlap and duplicates), a
+/// tagged alternative at a late position; ascending, descending, middle-out or shuffled.
+/// Counts sit around 16/32/64/256, where fixed-size scratch space or strategy switches would be.
+pub fn long_alt_operand(r: &mut Rng, table: &[Iv], allow_huge: bool) -> Option<Operand> {
+    long_alt_operand_sized(r, table, if allow_huge { 2 } else { 0 })
+}
+
+/// `huge`: 0 = at most 300 alternatives, 1 = sometimes 3000, 2 = sometimes 3000 and, rarely,
+/// 20000 (at optimisation level 2 a recursive frame can be as small as 16..48 bytes)
+pub fn long_alt_operand_sized(r: &mut Rng, table: &[Iv], huge: u8) -> Option<Operand> {
+    const SIZES: &[usize] = &[17, 18, 20, 24, 33, 34, 40, 65, 66, 70, 72, 130, 257, 260, 300];
+    let mut n = if r.chance(3, 4) { SIZES[r.below(9)] } else { *r.pick(SIZES) };
+    if huge >= 1 && r.chance(1, 12) {
+        n = 3000;
+    }
+    if huge >= 2 && r.chance(1, 30) {
+        n = 20_000;
+    }
+    let mut alts: Vec<String> = match r.below(6) {
+        0 => (0..n).map(|k| format!("1.0.{}", k)).collect(),
+        1 => {
+            // one wide alternative first, pins inside and outside it after
+            let mut a = vec![">=1.0.0".to_string()];
+            a.extend((1..n).map(|k| format!("{}.0.0", k + 1)));
+            a
+        }
+        2 => (0..n).map(|k| format!(">=1.{}.2 <1.{}.7", k, k)).collect(),
+        3 if n <= 300 => (0..n).map(|_| iv_text(r.pick(table))).collect(),
+        4 => {
+            // release pins and one alternative that opts prereleases in, late in the list
+            let mut a: Vec<String> = (0..n - 1).map(|k| format!("{}.0.0", k)).collect();
+            let at = if r.chance(2, 3) { a.len() } else { r.below(a.len() + 1) };
+            a.insert(at, format!(">={}.0.0-alpha <{}.0.0", n + 60, n + 60));
+            return finish_long(r, a, false);
+        }
+        _ => (0..n).map(|k| format!(">1.0.{} <=1.0.{}", 2 * k, 2 * k + 1)).collect(),
+    };
+    if alts.is_empty() {
+        return None;
+    }
+    let reorder = true;
+    if r.chance(1, 5) {
+        // a structurally duplicated alternative far from its twin
+        let d = alts[r.below(alts.len())].clone();
+        alts.push(d);
+    }
+    finish_long(r, alts, reorder)
+}
+
+fn finish_long(r: &mut Rng, mut alts: Vec<String>, reorder: bool) -> Option<Operand> {
+    if reorder {
+        match r.below(4) {
+            0 => {}
+            1 => alts.reverse(),
+            2 => {
+                // middle-out
+                let mut out = vec![];
+                let m = alts.len() / 2;
+                for i in 0..alts.len() {
+                    let k = if i % 2 == 0 { m + i / 2 } else { m - 1 - i / 2 };
+                    if k < alts.len() {
+                        out.push(alts[k].clone());
+                    }
+                }
+                alts = out;
+            }
+            _ => {
+                for i in (1..alts.len()).rev() {
+                    let j = r.below(i + 1);
+                    alts.swap(i, j);
+                }
+            }
+        }
+    }
+    operand_from_text(&alts.join("||"))
+}
+
+/// partner for a long operand: a small range cutting through the list's span, a pin on one of
+/// its late members, everything, or (rarely) another list so that the result exceeds 256 pieces
+pub fn long_partner(r: &mut Rng, long: &Operand, table: &[Iv]) -> Option<Operand> {
+    let n = long.b.0.len() as u64;
+    let t = match r.below(9) {
+        0 => "*".to_string(),
+        1 => format!(">=1.0.{} <1.0.{}", n / 3, n - 2),
+        2 => format!("1.0.{}", n.saturating_sub(1 + r.below(6) as u64)),
+        3 => format!("<1.0.3 || >1.0.{}", n.saturating_sub(6)),
+        4 => format!(">={}.0.0 <{}.5.0 || {}.5.0", n / 2, n, n / 4),
+        5 => format!(">=1.{}.0 <1.{}.3", n / 2, n.saturating_sub(2)),
+        6 => format!("{}.5.0 || >={}.0.0-0", n / 3, n / 2),
+        7 => {
+            // another list, sized so that the product stays a few hundred pieces
+            let m = 18 + r.below(3);
+            let a: Vec<String> = (0..m).map(|k| format!("<=1.0.{} || >=1.{}.0", k * 3 + 1, k)).collect();
+            a.join("||")
+        }
+        _ => return rand_operand(r, table),
+    };
+    operand_from_text(&t)
 }
 
 pub fn sat(r: &Range, v: &MV) -> bool {
